@@ -14,7 +14,12 @@
 //!   kill <i>           (the process of service i dies behind the manager's back)
 //!   flaky <i> <0|1>    (while set, the OS "starts" service i successfully but no process appears)
 //!   saveload           (registry := load(save(registry)))
-//! Output: `<result> calls=<k> | R <svc>* | OS inst=[..] procs=[..] dirs=[..] np=<next pid> npt=<next port>`
+//!   reload             (drop the in-memory registry and continue from the registry FILE: the next antctl invocation)
+//! The registry file is written only by the code under test and by the harness where it plays the operation's caller
+//! in cmd/node.rs: `add`, `start`, `stop`, `remove` save after a successful operation only, `upgrade` saves whatever
+//! the outcome, a bare `refresh` does not save. `add_node` itself saves after every completed install.
+//! Output: `<result> calls=<k> | R <svc>* | F <svc>* | OS inst=[..] procs=[..] dirs=[..] np=<next pid> npt=<next port>`
+//!   (R = in-memory registry, F = the registry file as left on disk, loaded without any harness save in between)
 //!   svc = `<name#>/<number>/<dir#>:<A|R|S|X>:pid=<p|->:np=<p|->:mp=<p|->:rp=<p>:v=<ver>`
 //!
 //! Simulated OS semantics (Linux/systemd-like; trusted base): `install` (over)writes a service definition;
@@ -268,9 +273,14 @@ fn ver_of(s: &str) -> String {
     s.strip_prefix("0.1.").map(|x| x.to_string()).unwrap_or_else(|| format!("?{s}"))
 }
 
-fn dump(w: &World) -> String {
-    let mut s = String::from("R");
-    for n in &w.reg.nodes {
+/// the registry file as the code under test (or the harness playing its caller) left it
+fn load_file(w: &World) -> Result<NodeRegistry, String> {
+    NodeRegistry::load(&w.reg.save_path).map_err(|e| format!("{e}"))
+}
+
+fn dump_nodes(nodes: &[ant_service_management::NodeServiceData]) -> String {
+    let mut s = String::new();
+    for n in nodes {
         let st = match n.status {
             ServiceStatus::Added => "A",
             ServiceStatus::Running => "R",
@@ -290,6 +300,17 @@ fn dump(w: &World) -> String {
             n.rpc_socket_addr.port(),
             ver_of(&n.version)
         ));
+    }
+    s
+}
+
+fn dump(w: &World) -> String {
+    let mut s = String::from("R");
+    s.push_str(&dump_nodes(&w.reg.nodes));
+    s.push_str(" | F");
+    match load_file(w) {
+        Ok(f) => s.push_str(&dump_nodes(&f.nodes)),
+        Err(_) => s.push_str(" ?unreadable"),
     }
     let os = w.os.lock().unwrap();
     let inst: Vec<String> = {
@@ -427,7 +448,13 @@ fn exec_op(w: &mut World, ws: &[&str]) -> String {
             };
             let r = w.rt.block_on(add_node(options, &mut w.reg, &ctl, VerbosityLevel::Minimal));
             match r {
-                Ok(names) => format!("ok:[{}]", names.iter().map(|n| num_suffix(n)).collect::<Vec<_>>().join(",")),
+                Ok(names) => {
+                    // cmd::node::add: `add_node(..).await?; node_registry.save()?;` (an error returns before the save)
+                    if let Err(e) = w.reg.save() {
+                        return format!("err:save:{}", svc_err(&e));
+                    }
+                    format!("ok:[{}]", names.iter().map(|n| num_suffix(n)).collect::<Vec<_>>().join(","))
+                }
                 Err(e) => {
                     let m = format!("{e}");
                     if let Some(p) = m.strip_prefix("Port ").and_then(|r| r.split(' ').next()) {
@@ -452,16 +479,18 @@ fn exec_op(w: &mut World, ws: &[&str]) -> String {
             let name = w.reg.nodes[i].service_name.clone();
             let rpc = Rpc { os: w.os.clone(), name };
             let ct = kv(rest, "ct").and_then(b01).unwrap_or(false);
+            let rt = &w.rt;
+            let tmp_path = w.tmp.path().to_path_buf();
             let node = &mut w.reg.nodes[i];
             let service = NodeService::new(node, Box::new(rpc));
             let service = if ct { service.with_connection_timeout(Duration::from_secs(1)) } else { service };
             let mut sm = ServiceManager::new(service, Box::new(ctl), VerbosityLevel::Minimal);
-            match ws[0] {
-                "start" => res_unit(w.rt.block_on(sm.start())),
-                "stop" => res_unit(w.rt.block_on(sm.stop())),
+            let result: String = match ws[0] {
+                "start" => res_unit(rt.block_on(sm.start())),
+                "stop" => res_unit(rt.block_on(sm.stop())),
                 "remove" => {
                     let Some(keep) = kv(rest, "keep").and_then(b01) else { return "bad-op".into() };
-                    res_unit(w.rt.block_on(sm.remove(keep)))
+                    res_unit(rt.block_on(sm.remove(keep)))
                 }
                 _ => {
                     let (Some(force), Some(start), Some(ver)) = (
@@ -476,10 +505,10 @@ fn exec_op(w: &mut World, ws: &[&str]) -> String {
                         env_variables: None,
                         force,
                         start_service: start,
-                        target_bin_path: w.tmp.path().join("antnode-new"),
+                        target_bin_path: tmp_path.join("antnode-new"),
                         target_version: semver::Version::new(0, 1, ver as u64),
                     };
-                    match w.rt.block_on(sm.upgrade(options)) {
+                    match rt.block_on(sm.upgrade(options)) {
                         Ok(UpgradeResult::NotRequired) => "ok:NotRequired".into(),
                         Ok(UpgradeResult::Upgraded(_, _)) => "ok:Upgraded".into(),
                         Ok(UpgradeResult::Forced(_, _)) => "ok:Forced".into(),
@@ -506,7 +535,15 @@ fn exec_op(w: &mut World, ws: &[&str]) -> String {
                         Err(e) => format!("err:{}", mgr_err(&e)),
                     }
                 }
+            };
+            drop(sm);
+            // the caller in cmd/node.rs: start/stop/remove save after Ok only; upgrade saves on Ok and on Err
+            if ws[0] == "upgrade" || result.starts_with("ok") {
+                if let Err(e) = w.reg.save() {
+                    return format!("err:save:{}", svc_err(&e));
+                }
             }
+            result
         }
         ["refresh"] => match w.rt.block_on(refresh_node_registry(&mut w.reg, &ctl, false, false, false)) {
             Ok(()) => {
@@ -537,6 +574,13 @@ fn exec_op(w: &mut World, ws: &[&str]) -> String {
             if b { os.flaky.insert(name); } else { os.flaky.remove(&name); }
             "ok".into()
         }
+        ["reload"] => match load_file(w) {
+            Ok(r) => {
+                w.reg = r;
+                "ok".into()
+            }
+            Err(_) => "err:load".into(),
+        },
         ["saveload"] => {
             if let Err(e) = w.reg.save() {
                 return format!("err:save:{}", svc_err(&e));
@@ -623,8 +667,12 @@ fn oracle(w: &World, info: &OpInfo, history: &[String], out: &mut Out) {
     // a failed operation never newly records Running
     if failed {
         for (i, x) in s1.iter().enumerate() {
-            if x.status == ServiceStatus::Running && s0.get(i).map_or(true, |o| o.status != ServiceStatus::Running) {
-                out.oracle_fail("failure-never-marks-running", &hist, &format!("operation failed ({}) but {} is newly recorded Running", info.result, x.name));
+            // exactly the property's wording: newly recorded Running WHEN IT IS NOT (no live process with the recorded
+            // pid). Recording Running + pid of a process that is alive is a model difference, not a property failure.
+            let newly = x.status == ServiceStatus::Running && s0.get(i).map_or(true, |o| o.status != ServiceStatus::Running);
+            let really_running = p1.iter().any(|p| p.exe == x.bin && Some(p.pid) == x.pid);
+            if newly && !really_running {
+                out.oracle_fail("failure-never-marks-running", &hist, &format!("operation failed ({}) but {} is newly recorded Running with pid {:?} and no such process is alive", info.result, x.name, x.pid));
             }
         }
     }
@@ -685,16 +733,60 @@ fn oracle(w: &World, info: &OpInfo, history: &[String], out: &mut Out) {
             out.count("oracle:requested-port-conflict");
         }
     }
-    // registry save -> load identity
-    match w.reg.save().and_then(|_| NodeRegistry::load(&w.reg.save_path)) {
+    // registry save -> load identity of the serialisation itself (to a side file: the registry file proper is an
+    // observable and is never written by the oracle)
+    let mut side = w.reg.clone();
+    side.save_path = w.tmp.path().join("oracle-side.json");
+    match side.save().and_then(|_| NodeRegistry::load(&side.save_path)) {
         Ok(back) => {
-            let a = serde_json::to_value(&w.reg).expect("json");
+            let a = serde_json::to_value(&side).expect("json");
             let b = serde_json::to_value(&back).expect("json");
             if a != b {
                 out.oracle_fail("save-load-identity", &hist, "registry differs after save + load");
             }
         }
         Err(e) => out.oracle_fail("save-load-identity", &hist, &format!("save/load failed: {e}")),
+    }
+    // the registry FILE as left by the code under test (and by the harness where it plays the command that saves
+    // after success)
+    match load_file(w) {
+        Err(e) => out.oracle_fail("file-matches-memory", &hist, &format!("the registry file does not load: {e}")),
+        Ok(file) => {
+            // (a) every step that claims to have saved: file == memory. `add_node` claims it for every service it
+            //     records ("we save the node registry for each service"), the commands after a successful operation,
+            //     `upgrade` always.
+            let recorded_new = s1.len() > s0.len();
+            let claims_saved = match info.ws.first().copied() {
+                Some("add") => !failed || recorded_new,
+                Some("start") | Some("stop") | Some("remove") => !failed,
+                Some("upgrade") => info.result != "err:no-such-service" && info.result != "bad-op",
+                Some("saveload") | Some("reload") => !failed,
+                _ => false,
+            };
+            if claims_saved {
+                let a = serde_json::to_value(&w.reg).expect("json");
+                let b = serde_json::to_value(&file).expect("json");
+                if a != b {
+                    out.oracle_fail("file-matches-memory", &hist, &format!("after `{}` ({}) the registry file differs from the in-memory registry: file has {} entries, memory {}", info.ws[0], info.result, file.nodes.len(), w.reg.nodes.len()));
+                }
+                out.count("oracle:file-compared");
+            }
+            // (b) every service the OS has a definition for is recorded in the file, so the next invocation knows it
+            let os = w.os.lock().unwrap();
+            for name in os.installed.keys() {
+                if !file.nodes.iter().any(|n| &n.service_name == name) {
+                    out.oracle_fail("installed-recorded-in-file", &hist, &format!("{name} is installed but absent from the registry file"));
+                }
+            }
+            // (c) names / directories unique in the file as well
+            for (a, x) in file.nodes.iter().enumerate() {
+                for y in file.nodes.iter().skip(a + 1) {
+                    if x.service_name == y.service_name || x.data_dir_path == y.data_dir_path {
+                        out.oracle_fail("names-dirs-unique", &hist, &format!("registry file: {} and {} share a name or data directory", x.service_name, y.service_name));
+                    }
+                }
+            }
+        }
     }
 }
 
@@ -778,6 +870,7 @@ fn alphabet(nsvc: usize, rich: bool) -> Vec<String> {
     }
     v.push("refresh".into());
     v.push("saveload".into());
+    v.push("reload".into());
     v.push("add count=1 np=- mp=- rp=- metrics=0 ver=1".into());
     if rich {
         v.push("add count=2 np=- mp=- rp=- metrics=1 ver=1".into());
@@ -825,7 +918,7 @@ fn random_op(rng: &mut Rng, nsvc: usize) -> String {
         13..=14 => "refresh".into(),
         15 => format!("kill {i}"),
         16 => format!("flaky {i} {}", rng.below(2)),
-        17 => "saveload".into(),
+        17 => if rng.chance(1, 2) { "saveload".into() } else { "reload".into() },
         _ => random_add(rng),
     }
 }
@@ -898,6 +991,10 @@ fn generate(seed: u64, n: u64) -> Vec<String> {
         // F-s: first install of a two-node add fails, next add must not reuse the name antnode2
         vec!["reset", "add count=2 np=- mp=- rp=- metrics=0 ver=1 faults=01", "add count=1 np=- mp=- rp=- metrics=0 ver=1 faults=-"],
         vec!["reset", "add count=3 np=- mp=- rp=- metrics=0 ver=1 faults=0100", "add count=2 np=- mp=- rp=- metrics=0 ver=1 faults=-", "remove 0 keep=0 faults=-", "add count=1 np=- mp=- rp=- metrics=0 ver=1 faults=-"],
+        // registry file: a multi-node add that returns early (second port allocation fails) must have saved the
+        // service it installed; the next invocation starts from the file and must not hand out antnode1 again
+        vec!["reset", "add count=3 np=- mp=- rp=- metrics=0 ver=1 faults=001", "reload", "add count=1 np=- mp=- rp=- metrics=0 ver=1 faults=-"],
+        vec!["reset", "add count=2 np=- mp=- rp=- metrics=1 ver=1 faults=0001", "reload", "add count=2 np=- mp=- rp=- metrics=0 ver=1 faults=-", "reload", "start 0 ct=0 faults=-", "reload"],
         // K-s-orphan: RPC failure after the process launched
         vec!["reset", "add count=1 np=- mp=- rp=- metrics=0 ver=1 faults=-", "start 0 ct=0 faults=01", "stop 0 faults=-"],
         vec!["reset", "add count=1 np=- mp=- rp=- metrics=0 ver=1 faults=-", "start 0 ct=0 faults=001", "remove 0 keep=1 faults=-", "refresh"],
